@@ -138,3 +138,19 @@ Theorem C13_boxed_nesting_map_input_bounds : forall a b c st,
   is_none (fst (get_map st (SConcat [SConcat [a; b]; c]) true)) = is_none (fst (get_map st (SConcat [a; b; c]) true)).
 Proof. exact BoundsAll.boxed_nesting_map_tiny. Qed.
 Print Assumptions C13_boxed_nesting_map_input_bounds.
+
+(* the wrapper law in WARM states: a CachedSource around `a` (which may contain caches itself)
+   answers as `a`, after arbitrary and independent observer histories on the two sides - the
+   extracted checker's strict verdict is 0.  Hypothesis beyond the class: one content per declared
+   file name (without it the statement is false: CompWarmLaws.cached_law_contents_counterexample,
+   the K7 mechanism; the entry point answers "out of domain" for such inputs) *)
+From RS Require Proofs.ColdCache Proofs.CompWarmContInv Proofs.CompWarmLawsFull.
+From RS Require Import Checkers.ChkHist Api.ApiHist.
+Theorem C13_cached_warm : forall id a opsa opsb,
+  ColdCache.ids_distinct (SCached id a) -> k2_shape a = false ->
+  RStreamTree.rshape (ColdCache.uncache a) = true -> treeA a = true ->
+  BoundsPos.tiny (ColdCache.uncache a) = true ->
+  CompWarmLawsFull.consistentb (CompWarmContInv.decl a) = true ->
+  chk_C13 (SCached id a) a false (api_pair (SCached id a) opsa a opsb) = 0.
+Proof. exact CompWarmLawsFull.C13_cached_warm_checker. Qed.
+Print Assumptions C13_cached_warm.
